@@ -23,12 +23,15 @@ SRC_SVP = "spqlios/arithmetic/scalar_vector_product.c"
 SRC_SMALL = "spqlios/arithmetic/znx_small.c"
 SRC_VMP = "spqlios/arithmetic/vector_matrix_product.c"
 SRC_FFTVEC = "spqlios/reim/reim_fftvec_addmul_ref.c"
-ALL_SRCS = [SRC, SRC_VEC, SRC_AVX, SRC_VECAVX, SRC_Q120REF, SRC_Q120SIMPLE, SRC_DFT, SRC_SVP, SRC_SMALL, SRC_VMP, SRC_FFTVEC]
+SRC_REIM4 = "spqlios/reim4/reim4_arithmetic_ref.c"
+ALL_SRCS = [SRC, SRC_VEC, SRC_AVX, SRC_VECAVX, SRC_Q120REF, SRC_Q120SIMPLE, SRC_DFT, SRC_SVP, SRC_SMALL, SRC_VMP, SRC_FFTVEC, SRC_REIM4]
 # static helpers inlined into translated q120 functions: helper -> (source, property module of a function using it)
 Q120_HELPERS = {"accum_mul_q120_bc": "SpqProofs.Properties.SrcQ120", "accum_to_q120b": "SpqProofs.Properties.SrcQ120"}
 
 # property module holding the theorems of a function
 def module_of(fn):
+    if fn.startswith("reim4_"):
+        return "SpqProofs.Properties.SrcReim4"
     if fn.startswith("reim_fftvec_"):
         return "SpqProofs.Properties.SrcFftvec"
     if fn.startswith("fft64_vmp_"):
@@ -58,6 +61,8 @@ def module_of(fn):
     return "SpqProofs.Properties.SrcElem"
 
 def src_of(fn):
+    if fn.startswith("reim4_"):
+        return SRC_REIM4
     if fn.startswith("reim_fftvec_"):
         return SRC_FFTVEC
     if fn.startswith("fft64_vmp_"):
@@ -78,7 +83,7 @@ ALL_MODULES = ["SpqProofs.Properties.SrcElem", "SpqProofs.Properties.SrcRot", "S
                "SpqProofs.Properties.SrcVec", "SpqProofs.Properties.SrcAutIn", "SpqProofs.Properties.SrcAvx",
                "SpqProofs.Properties.SrcVecAvx", "SpqProofs.Properties.SrcVecNorm",
                "SpqProofs.Properties.SrcQ120", "SpqProofs.Properties.SrcQ120X2",
-               "SpqProofs.Properties.SrcMod", "SpqProofs.Properties.SrcModVmp", "SpqProofs.Properties.SrcFftvec"]
+               "SpqProofs.Properties.SrcMod", "SpqProofs.Properties.SrcModVmp", "SpqProofs.Properties.SrcFftvec", "SpqProofs.Properties.SrcReim4"]
 
 # (id, kind, description, function the edit is made in, old text, new text, occurrence index inside the function)
 CASES = [
@@ -195,6 +200,8 @@ CASES = [
      "    r[i] = re;\n    double im = a[i] * b[i + m] + a[i + m] * b[i];", 0),
     ("F4", "semantic", "reim_fftvec_addmul_ref: loop bound `i < m` -> `i + 1 < m`", "reim_fftvec_addmul_ref",
      "i < m", "i + 1 < m", 0),
+    ("R1", "semantic", "reim4_extract_1blk_from_reim_ref: imaginary half `src_ptr += m` -> `src_ptr += m + 1`", "reim4_extract_1blk_from_reim_ref",
+     "src_ptr += m;", "src_ptr += m + 1;", 0),
     ("H12", "harmless", "reim_fftvec_mul_ref: `++i` -> `i++`", "reim_fftvec_mul_ref", "++i", "i++", 0),
     ("H11", "harmless", "fft64_vec_znx_dft: `i++` -> `++i`", "fft64_vec_znx_dft", "i++", "++i", 0),
     ("H10", "harmless", "q120_add_bbb_simple: `i += 4` -> `i = i + 4`", "q120_add_bbb_simple", "i += 4", "i = i + 4", 0),
